@@ -644,3 +644,17 @@ Proof. eexists. split; [vm_compute; reflexivity|]. split; [reflexivity|]. split;
 Example ex_stable : exists r, parse (B "arg007='x',path='/a',arg+5path='/b',arg5pathological='/c',path_namespace='/d',sender='a.b',sender=':1.2'") = Ok r /\
   show r = B "sender=':1.2',path_namespace='/d',arg7='x',arg5path='/c'" /\ parse (show r) = Ok r.
 Proof. eexists. split; [vm_compute; reflexivity|]. split; vm_compute; reflexivity. Qed.
+
+(* ------------------------------------------------------------------ statements about rules built through the API *)
+Lemma roundtrip_built ops r : build ops = Ok r -> k_empty_rule r = false -> k_comma_value r = false -> parse (show r) = Ok r.
+Proof. intros H. apply roundtrip. eapply wf_build; eassumption. Qed.
+Lemma spec_reads_built ops r : build ops = Ok r -> k_apostrophe_value r = false -> spec_parse (show r) = Some (pairs_of r).
+Proof. intros H. apply spec_reads. eapply wf_build; eassumption. Qed.
+Lemma partial_built ops r : build ops = Ok r -> known_C22 r = false ->
+  parse (show r) = Ok r /\ spec_parse (show r) = Some (pairs_of r).
+Proof.
+  intros H Hk. unfold known_C22 in Hk. apply orb_false_iff in Hk as [Hk H3]. apply orb_false_iff in Hk as [H1 H2].
+  split; [eapply roundtrip_built|eapply spec_reads_built]; eassumption.
+Qed.
+Lemma pairs_of_inj_built ops1 ops2 r1 r2 : build ops1 = Ok r1 -> build ops2 = Ok r2 -> pairs_of r1 = pairs_of r2 -> r1 = r2.
+Proof. intros H1 H2. apply pairs_of_inj; eapply wf_build; eassumption. Qed.
